@@ -616,6 +616,7 @@ var strAxioms = []struct{ sym, ax string }{
 	{"cat", `(assert (forall ((a Str)) (! (= (cat empty$ a) a) :pattern ((cat empty$ a)))))`},
 	{"maplen$", `(assert (forall ((m Int)) (! (>= (maplen$ m) 0) :pattern ((maplen$ m)))))`},
 	{"slen", `(assert (forall ((s Str)) (! (>= (slen s) 0) :pattern ((slen s)))))`},
+	{"at", `(assert (forall ((s Str) (i Int)) (! (and (<= 0 (at s i)) (<= (at s i) 255)) :pattern ((at s i)))))`},
 	{"cat", `(assert (forall ((a Str) (b Str)) (! (= (slen (cat a b)) (+ (slen a) (slen b))) :pattern ((cat a b)))))`},
 	{"zeros", `(assert (forall ((n Int)) (! (=> (>= n 0) (= (slen (zeros n)) n)) :pattern ((zeros n)))))`},
 	{"sub", `(assert (forall ((s Str) (i Int) (j Int)) (! (=> (and (<= 0 i) (<= i j) (<= j (slen s))) (= (slen (sub s i j)) (- j i))) :pattern ((sub s i j)))))`},
@@ -624,7 +625,7 @@ var strAxioms = []struct{ sym, ax string }{
 	{"sub", `(assert (forall ((s Str) (lo Int) (hi Int) (i Int)) (! (=> (and (<= 0 lo) (<= lo hi) (<= hi (slen s)) (<= 0 i) (< i (- hi lo))) (= (at (sub s lo hi) i) (at s (+ lo i)))) :pattern ((at (sub s lo hi) i)))))`},
 	{"sub", `(assert (forall ((s Str) (a Int) (b Int) (c Int) (d Int)) (! (=> (and (<= 0 a) (<= a b) (<= b (slen s)) (<= 0 c) (<= c d) (<= d (- b a))) (= (sub (sub s a b) c d) (sub s (+ a c) (+ a d)))) :pattern ((sub (sub s a b) c d)))))`},
 	{"supd", `(assert (forall ((s Str) (i Int) (v Int)) (! (= (slen (supd s i v)) (slen s)) :pattern ((supd s i v)))))`},
-	{"supd", `(assert (forall ((s Str) (i Int) (v Int) (j Int)) (! (=> (and (<= 0 i) (< i (slen s)) (<= 0 j) (< j (slen s))) (= (at (supd s i v) j) (ite (= j i) v (at s j)))) :pattern ((at (supd s i v) j)))))`},
+	{"supd", `(assert (forall ((s Str) (i Int) (v Int) (j Int)) (! (=> (and (<= 0 i) (< i (slen s)) (<= 0 j) (< j (slen s)) (<= 0 v) (<= v 255)) (= (at (supd s i v) j) (ite (= j i) v (at s j)))) :pattern ((at (supd s i v) j)))))`},
 	{"zeros", `(assert (forall ((n Int) (i Int)) (! (=> (and (<= 0 i) (< i n)) (= (at (zeros n) i) 0)) :pattern ((at (zeros n) i)))))`},
 	{"byte1", `(assert (forall ((v Int)) (! (and (= (slen (byte1 v)) 1) (= (at (byte1 v) 0) (mod v 256))) :pattern ((byte1 v)))))`},
 	{"cat", `(assert (forall ((a Str) (b Str)) (! (= (sub (cat a b) 0 (slen a)) a) :pattern ((sub (cat a b) 0 (slen a))))))`},
